@@ -185,6 +185,8 @@ impl World {
     }
 
     pub fn take_projection(&self) -> anyhow::Result<Projection> {
+        // the harness's own reads are not subject to the foreign-writer fault
+        crate::vfs::foreign_release_now();
         project(&self.store.raw, &self.clients, &self.ids())
     }
 
@@ -423,6 +425,14 @@ impl World {
                 out.bump(if *us < 0 { "clock.jump_back" } else { "clock.jump_forward" });
                 return None;
             }
+            Op::ForeignLock { hold_us } => {
+                if let Some(d) = &self.store.dir {
+                    if crate::vfs::foreign_hold(&d.join(crate::world::DB_FILE), *hold_us).is_ok() {
+                        out.bump("fault.foreign_writer_holds_lock");
+                    }
+                }
+                return None;
+            }
             Op::Reconfig { days, versions } => {
                 // restart with other snapshot targets (both backends: a new server over the same storage)
                 let cfg = Cfg { days: *days, versions: *versions };
@@ -531,9 +541,45 @@ impl World {
         };
         let state_class = self.state_class(&cid);
         let t = self.inst_now();
+        let foreign_hold = crate::vfs::foreign_remaining();
         let resp = self.issue(&req, ch, out);
         let t2 = self.inst_now();
         let log = self.inst.ctl.take_log();
+        if foreign_hold > 0 {
+            // the harness's own state reads need the lock too
+            crate::vfs::foreign_release_now();
+            if t2 - t > 0 {
+                out.bump("probe.request_waited_for_foreign_lock");
+            }
+            if matches!(resp, Resp::Error(_)) && foreign_hold > 4_400_000 {
+                // the lock outlasted the backend's lock-wait budget: an error is a legitimate answer,
+                // provided the request had no effect at all
+                out.bump("probe.request_timed_out_behind_foreign_lock");
+                match self.take_projection() {
+                    Ok(mut after) => {
+                        let mut before = self.proj.clone();
+                        if http && matches!(req, Req::AddVersion { .. }) && self.model.client(&cid).is_none() {
+                            crate::world::identify_empty(&mut before);
+                            crate::world::identify_empty(&mut after);
+                        }
+                        if let Some(d) = proj_diff(&before, &after) {
+                            out.violations.push(viol(&["C05", "C03", "C04"], "busy.partial_effect", format!("{} gave up waiting for the database lock ({}) but left an effect: {d}", req.short(), resp.short())));
+                        }
+                        if http && matches!(req, Req::AddVersion { .. }) && self.model.client(&cid).is_none() {
+                            if let Ok(p) = self.take_projection() {
+                                if matches!(p.get(&cid), Some(Some(_))) {
+                                    self.model.clients.entry(cid).or_default().exists = true;
+                                }
+                                self.proj = p;
+                            }
+                        }
+                    }
+                    Err(e) => out.violations.push(viol(&["C05"], "state.unreadable", format!("{e:#}"))),
+                }
+                self.last_probe = None;
+                return StepOut { req, resp };
+            }
+        }
         for m in self.model.apply(&req, &resp, t, t2, http) {
             out.violations.push(m.into());
         }
@@ -684,6 +730,7 @@ impl World {
 
     /// Re-read one earlier accepted version of a random client (C07).
     pub fn audit_one(&mut self, r: &mut Rng, out: &mut RunOut) {
+        crate::vfs::foreign_release_now();
         let with: Vec<Id> = self.clients.iter().filter(|c| self.model.client(c).map(|cl| !cl.versions.is_empty()).unwrap_or(false)).cloned().collect();
         if with.is_empty() {
             return;
@@ -707,6 +754,7 @@ impl World {
 
     /// Walk every chain end to end, walk from every snapshot, re-read everything.
     pub fn full_check(&mut self, out: &mut RunOut) {
+        crate::vfs::foreign_release_now();
         let http = self.entry == Entry::Http;
         self.last_probe = None;
         for c in self.clients.clone() {
@@ -894,6 +942,7 @@ pub struct GenParams {
     pub whole_sec: bool,
     pub allow_restart: bool,
     pub allow_seed: bool,
+    pub foreign_lock_pct: u32,
 }
 
 pub fn gen_ops(r: &mut Rng, p: &GenParams, n_clients: u8, cfg: &Cfg, page: u32) -> Vec<Op> {
@@ -916,6 +965,15 @@ pub fn gen_ops(r: &mut Rng, p: &GenParams, n_clients: u8, cfg: &Cfg, page: u32) 
     while ops.len() < n_ops {
         let c = r.below(n_clients as u64) as u8;
         let kind = r.weighted(&w);
+        if p.backend == Backend::Sqlite && p.foreign_lock_pct > 0 && matches!(kind, 0..=3) && r.chance(p.foreign_lock_pct as u64, 100) {
+            // shortly, around the 5 s lock-wait budget, or well beyond it
+            let hold = match r.below(3) {
+                0 => r.range(100_000, 4_000_000),
+                1 => r.range(4_500_000, 6_500_000),
+                _ => r.range(6_500_000, 12_000_000),
+            };
+            ops.push(Op::ForeignLock { hold_us: hold });
+        }
         // library callers create clients explicitly (mostly)
         if p.entry == Entry::Lib && !created[c as usize] && matches!(kind, 0..=3) && r.chance(9, 10) {
             created[c as usize] = true;
@@ -1017,6 +1075,7 @@ pub fn gen_plan(seed: u64, backend: Backend, entry: Entry, focus: Focus, thoroug
         whole_sec,
         allow_restart: true,
         allow_seed: true,
+        foreign_lock_pct: if backend == Backend::Sqlite && r.chance(25, 100) { 12 } else { 0 },
     };
     let mut ops = gen_ops(&mut r, &p, n_clients, &cfg, page);
     // swarm knob: in some runs clients deliberately quote each other's ids
